@@ -49,8 +49,8 @@ class Problem:
         self.shr_domains_lst = [
             [domain, domain] if isinstance(domain, int) else [domain[0], domain[1]] for domain in shr_domains_lst
         ]
-        self.dom_indices_lst = dom_indices_lst
-        self.dom_offsets_lst = dom_offsets_lst
+        self.dom_indices_lst = list(dom_indices_lst)  # copies: add_variable(s) must not extend the lists of the caller
+        self.dom_offsets_lst = list(dom_offsets_lst)
         self.shr_domain_nb = len(shr_domains_lst)
         self.propagators: List[Tuple[List[int], int, List[int]]] = []
         self.propagator_nb = 0
